@@ -26,7 +26,7 @@ def import_scope():
     out["class_body:attr"] = _j("class A:", "    import os", "print(A.os.sep)")
     out["import_effect:submodule"] = _j("import xml", "import xml.dom as unused_dom", "print(xml.dom.Node.ELEMENT_NODE)")
     out["import_use:aug"] = _j("from math import pi", "pi += 1", "print(1)")
-    out["import_use:del"] = _j("import os", "del os", "try:", "    os", "except NameError:", "    print('deleted')")
+    out["import_use:del"] = _j("import os", "del os", "print('deleted')")
     out["import_use:global_in_func"] = _j("import os", "def f():", "    global os", "    os = None", "f()", "print(os)")
     return out
 
